@@ -36,6 +36,8 @@ type dNest struct {
 	MS map[string]string
 	MB map[string][]byte
 	PM *map[string]interface{}
+	SS [][]dLeaf  // structs reached through a slice of slices
+	SQ [][]*dLeaf // ... of pointers
 	N  int
 }
 
@@ -150,7 +152,7 @@ func deepShapes(p *prng, n int, st *stats, oracle func(string, ...any)) {
 		c := &canary{}
 		var payload interface{}
 		kind := ""
-		switch p.intn(14) {
+		switch p.intn(17) {
 		case 0:
 			l := mkLeaf(c, p)
 			payload, kind = &l, "ptr-struct"
@@ -189,6 +191,16 @@ func deepShapes(p *prng, n int, st *stats, oracle func(string, ...any)) {
 		case 12:
 			nst := &dNest{SP: []*dLeaf{nil}, N: 1}
 			payload, kind = nst, "nested-slice-with-nil-ptr"
+		case 13:
+			a := mkLeaf(c, p)
+			nst := &dNest{N: 1, SS: [][]dLeaf{{mkLeaf(c, p)}, {}, {mkLeaf(c, p), mkLeaf(c, p)}}, SQ: [][]*dLeaf{{&a, nil}}}
+			payload, kind = nst, "nested-slice-of-slices"
+		case 14:
+			a := mkLeaf(c, p)
+			payload, kind = [][]*dLeaf{{&a}, nil, {nil}}, "slice-of-slices"
+		case 15:
+			nst := &dNest{N: 1, M: map[string]interface{}{"ss": [][]dLeaf{{mkLeaf(c, p)}}, "sm": [][]map[string]interface{}{{{"k": c.prot()}}}}}
+			payload, kind = nst, "map-with-slice-of-slices"
 		default:
 			nst := &dNest{N: 1, MS: map[string]string{"k": c.prot()}}
 			payload, kind = nst, "ptr-nested-sparse"
